@@ -464,11 +464,22 @@ class Assign(Statement, AssignBase):
         return result
 
     def map_expressions(self, mapper, include_lhs=True):
+        from pymbolic.primitives import Variable
+
+        def map_loop_ident(ident):
+            # A loop variable is bound by this statement. If *mapper* renames
+            # it in the expressions, it has to be renamed here as well.
+            if include_lhs:
+                mapped = mapper(Variable(ident))
+                if isinstance(mapped, Variable):
+                    return mapped.name
+            return ident
+
         return (super()
                 .map_expressions(mapper, include_lhs=include_lhs)
                 .copy(
                     loops=[
-                        (ident, mapper(start), mapper(end))
+                        (map_loop_ident(ident), mapper(start), mapper(end))
                         for ident, start, end in self.loops]))
 
     def __str__(self):
